@@ -13,6 +13,7 @@ Definition err_code (e : err) : Z :=
   | EInvalidCoins => 5 | EInsufficientFunds => 6 | ENoLicense => 7 | ENoAccount => 8 | EVesting => 9
   | EUnauthorized => 10 | ENoFeegranter => 11 | ENoFunder => 12 | EInsufficientBalance => 13
   | ENoContract => 14 | EWrongContract => 15 | EGrantExists => 16 | ENotFound => 17
+  | EInjected => 18
   end.
 Definition out_code (o : outcome) : Z :=
   match o with Ok => 0 | Err e => err_code e | Panic => -1 end.
